@@ -13,7 +13,7 @@ from .contracts_rt import Contract, RecSpec
 from . import solve
 
 VERIF = os.path.dirname(os.path.dirname(os.path.abspath(__file__)))
-CONTRACT_MODULES = ["schema", "writer", "enclosing", "month"]
+CONTRACT_MODULES = ["schema", "writer", "enclosing", "month", "library"]
 
 
 def load_contracts(modules=None):
@@ -91,7 +91,7 @@ def run(functions=None, modules=None, timeout_ms=10000, verbose=True):
             continue
         if c.trusted:
             continue
-        fi = eng.repo.funcs.get(q)
+        fi = eng.repo.funcs.get(q.split('#')[0])
         if fi is None:
             eng.problems.append((q, "contracted function not found in the repository"))
             continue
